@@ -58,6 +58,12 @@ var c20faults = []c20fault{
 	{"nil map store, line break inside the brackets", []string{"var m map[string]int"}, "", "m[\n\t\t\"k\"] = 1", 0},
 	{"field store through nil reference, line break after the dot", []string{"var t *T"}, "", "t.\n\t\tn = 1", 0},
 	{"slice element +=, line break inside the brackets", []string{"s := []int{1}", "i := 3"}, "", "s[\n\t\ti] += 1", 0},
+	// the same through the hidden slots of the ordered paths: a call on the right, a tuple, a receiver that is a call
+	{"field += a call through nil reference, line break after the dot", []string{"var t *T"}, "", "t.\n\t\tn += id(1)", 0},
+	{"tuple store, first target through nil reference, line break after the dot", []string{"var t *T", "u := &T{}"}, "", "t.\n\t\tn, u.n = 1, 2", 0},
+	{"field store through a nil call result, line break after the dot", nil, "", "nilT().\n\t\tn = 1", 0},
+	{"field ++ through a nil call result, line break after the dot", nil, "", "nilT().\n\t\tn++", 0},
+	{"slice element += a call, line break inside the brackets", []string{"s := []int{1}", "i := 3"}, "", "s[\n\t\ti] += id(1)", 0},
 }
 
 var c20hosts = []string{"x := %E", "x = %E", "x += %E", "if %E > 0 {", "for %E > 0 {", "return %E", "x = id(%E)", "after fusable statements", "x = 1 +\n\t\t%E"}
@@ -111,6 +117,10 @@ func c20render(p c20prog) (src string, entry string, want []c20frame) {
 	emit("var gm map[string]int")
 	emit("var gz = 0")
 	emit("var gf func() int")
+	emit("")
+	emit("func nilT() *T {")
+	emit("\treturn nil")
+	emit("}")
 	emit("")
 	emit("func id(a int) int {")
 	emit("\treturn a")
